@@ -10,4 +10,6 @@ let table : (string * (Model.z list list -> Model.z list list)) list = [
   "subjecta", Model.subj_a_run;
   "observable", Model.obs_run;
   "router", Model.router_run;
+  "routerflat", Model.router_flat_run;
+  "routerspec", Model.router_spec_run;
 ]
